@@ -59,6 +59,7 @@ ATTRIB = doc("VerifH_DiagnosticAttribution", {"K": 3}, {"K": 4}, full_schema_lib
 ANNOT_IN = {"pkg": "catalog", "fn": "VerifH_Annotation", "quick": {"N": 3, "INTERIOR": 1}, "thorough": {"N": 4, "INTERIOR": 1}}
 MSHAPE = {"pkg": "catalog", "fn": "VerifH_MarshalShape", "quick": {}, "thorough": {}, "instances": [{"T": t} for t in range(4)],
           "instances_thorough": [{"T": 4}], "stubs": {"encoding/json.Marshal": "verifStubJSONMarshalLogged"}}
+MKEY = {"pkg": "catalog", "fn": "VerifH_MarshalKeyBytes", "quick": {}, "thorough": {}, "stubs": {"encoding/json.Marshal": "verifStubJSONMarshalLogged"}}
 FIXTURES = {"pkg": "core", "fn": "VerifH_Fixture", "quick": {}, "thorough": {}, "full_schema_lib": True,
             "fixtures": 256, "fixtures_thorough": -1, "fixture_max_bytes": 20000, "step_budget": 60000000, "tolerated_inconclusive": ["budget: step budget"]}
 STRUCT_SCHEMA = doc("VerifH_CatalogStructure", {"K": 3, "MENU": 4}, {"K": 4, "MENU": 4}, full_schema_lib=True)
@@ -197,7 +198,7 @@ CHECKS = {
    {"pkg": "catalog", "fn": "VerifH_IdInjective", "quick": {"N": 3}, "thorough": {"N": 4}},
    {"pkg": "catalog", "fn": "VerifH_IdKeyText", "quick": {"N": 2}, "thorough": {"N": 3}},
    STRUCT, STRUCT_TAGS, STRUCT_RESP,
-   MSHAPE,
+   MKEY, MSHAPE,
   ],
   "assumptions": ["generated MarshalJSON of the ordered collections (Servers, UserTypes, UserRules, Tags, Interactions; 0..3 entries, thorough 4): with encoding/json.Marshal replaced by a stub returning arbitrary bytes, the result is exactly '{' k1 ':' v1 ',' ... '}' over the stub's answers in insertion order, so it is a valid JSON object with one member per entry whenever keys and values render to valid JSON",
                   "ordered collections: pre-state is any state with at most 3 entries satisfying the representation invariant; one step is inductive for histories of any length",
